@@ -1,6 +1,7 @@
 import OnlVerif.Lemmas.TcpSink
 import OnlVerif.Lemmas.TcpSender
 import OnlVerif.Lemmas.TcpLoop
+import OnlVerif.Lemmas.TcpAckMono
 import OnlVerif.Lemmas.GenSink
 import OnlVerif.Lemmas.TcpLiveQuiet
 import OnlVerif.Lemmas.TcpLiveRun
@@ -12,7 +13,8 @@ import OnlVerif.Lemmas.TcpLiveTRun
   is the length of the contiguous prefix of the bytes received so far, hence monotone; the buffer stays sorted,
   pairwise non-touching, and covers exactly the received bytes.  Sequence numbers and sizes are natural numbers.
 * **Sender** (`OnlVerif/Tcp/CC.lean`, LTS of `TCPPacketGenerator` over exact rationals `ℚ`): no sequence of actions
-  raises; on a loss-free, timely path nothing is sent twice; partial progress lemmas.
+  raises; the acknowledged mark never moves back, whatever the order of the ACKs (`last_ack_monotone`, `stale_ack_is_noop`);
+  on a loss-free, timely path nothing is sent twice; partial progress lemmas.
 * **Closed loop** (`OnlVerif/Tcp/Loop.lean`, `LoopLive.lean`: sender ∥ lossy FIFO data path ∥ sink ∥ lossy FIFO ACK
   path) for a finite flow: the run never ends early (`quiescent_implies_complete`), never gets stuck (`never_stuck`),
   no reachable state is a dead end (`can_always_complete`), and every run with finitely many losses terminates with
@@ -152,11 +154,11 @@ theorem new_segment_is_timed_partial (s s' : Sender ℚ) (tx : Tx ℚ) (h : Inv 
   exact AL.mem_of_get?_some (AL.get?_set_self _ _ _)
 
 /-- **(b) a timer is cancelled only by an ACK that covers or answers its segment**: if an accepted action removes
-`q` from the pending timers, the action is a new ACK with `q < ackno` or `q = packet_id`.  So an unacknowledged segment
-stays under a live timer. -/
+`q` from the pending timers, the action is a new ACK (`ackno > last_ack`: an ACK overtaken by a later one cancels nothing,
+`stale_ack_is_noop`) with `q < ackno` or `q = packet_id`.  So an unacknowledged segment stays under a live timer. -/
 theorem timer_cancelled_only_by_ack_partial (s s' : Sender ℚ) (a : Act ℚ) (outs : List (Tx ℚ)) (h : Inv s) (ha : ActOk a)
     (hs : s.step a = .ok s' outs) (q : Nat) (hq : q ∈ AL.keys s.timers) (hq' : q ∉ AL.keys s'.timers) :
-    ∃ x, a = .ack x ∧ x.ackno ≠ s.last_ack ∧ (q < x.ackno ∨ q = x.pid) :=
+    ∃ x, a = .ack x ∧ s.last_ack < x.ackno ∧ (q < x.ackno ∨ q = x.pid) :=
   timer_cancel_only_by_ack s s' a outs h ha hs q hq hq'
 
 /-- **(c) a pending timer that comes due retransmits its segment and stays pending** with the doubled RTO — so an
@@ -180,13 +182,52 @@ theorem due_timer_retransmits_and_rearms_partial (s : Sender ℚ) (seq : Nat) (t
   rw [AL.get?_set_self, hr2, arm_eq _ _ (by linarith)]
 
 /-- **(d) an ACK that gets through moves `last_ack` to its number and cancels the timers it covers**: after a new ACK
-`x`, `last_ack = x.ackno`, no segment below `x.ackno` and not the answered segment `x.pid` is still timed, every other
+`x` (`x.ackno > last_ack`), `last_ack = x.ackno`, no segment below `x.ackno` and not the answered segment `x.pid` is still timed, every other
 timer is untouched, and the `run` process is given a wake-up token. -/
-theorem new_ack_advances_partial (s : Sender ℚ) (x : AckIn ℚ) (h : Inv s) (hok : AckOk s x) (hnew : x.ackno ≠ s.last_ack) :
+theorem new_ack_advances_partial (s : Sender ℚ) (x : AckIn ℚ) (h : Inv s) (hok : AckOk s x) (hnew : s.last_ack < x.ackno) :
     ∃ s', s.step (.ack x) = .ok s' [] ∧ s'.last_ack = x.ackno ∧ s'.tokens = s.tokens + 1 ∧
       ∀ q, q ∈ AL.keys s'.timers ↔ q ∈ AL.keys s.timers ∧ ¬ (q < x.ackno ∨ q = x.pid) := by
   obtain ⟨T, S, r, _, _, hT, _⟩ := ackStep_new_spec s x h.cc h.keys h.nodup hok hnew
   exact ⟨_, r, rfl, rfl, hT⟩
+
+/-! ### the acknowledged mark is cumulative: it never moves back -/
+
+/-- **The sender's acknowledged mark `last_ack` never decreases - for ACKs arriving in *any* order.**  In every state
+reachable from a state satisfying the invariant (a fresh generator: `inv_init`) by accepted actions, every further accepted
+action - a resumption of `run`, a token hand-off, a timer expiry, a clock tick, or an ACK with an arbitrary number, echoed
+packet id and RTT sample, in particular one that was overtaken on the return path by a later cumulative ACK - leaves
+`last_ack` where it is or moves it forward; hence `last_ack` is non-decreasing along the whole run.  No FIFO hypothesis on
+the return path.  (Before the repair of `put` - `if ackno < self.last_ack: return` - an overtaken ACK was taken for a new one
+and moved the mark *back*: `known_findings.jsonl`, `findings/demos/C16_stale_ack.py`.) -/
+theorem last_ack_monotone (s0 s s' : Sender ℚ) (h0 : Inv s0) (hr : Reach s0 s) (a : Act ℚ) (ha : ActOk a)
+    (outs : List (Tx ℚ)) (hs : s.step a = .ok s' outs) :
+    s.last_ack ≤ s'.last_ack ∧ s0.last_ack ≤ s.last_ack :=
+  ⟨step_last_ack_mono (reach_inv h0 hr) ha hs, reach_last_ack_mono h0 hr⟩
+
+/-- **An ACK overtaken by a later cumulative one is ignored**: an acknowledgement with `ackno < last_ack` (well-formed:
+`flow_id ≥ 10000`, not stamped in the future) is accepted, leaves the *whole* sender state unchanged - `last_ack`, `dupack`,
+the window, the RTT estimator and RTO, the timers, the wake-up store - and sends nothing: it acknowledges nothing new and is
+not a duplicate either.  From any state. -/
+theorem stale_ack_is_noop (s : Sender ℚ) (x : AckIn ℚ) (hf : 10000 ≤ x.fid) (hp : x.ptime ≤ s.now)
+    (hst : x.ackno < s.last_ack) : s.step (.ack x) = .ok s [] :=
+  ackStep_stale s x ⟨hf, hp⟩ hst
+
+/-- the hypotheses of `stale_ack_is_noop` and `last_ack_monotone` are met by a reachable state, and the conclusion is not
+empty: the bulk scenario of the demo (3 segments, window of 3 segments, the ACKs come back in the order 1024, 1536, 512).
+All six actions are accepted; after the overtaken ACK 512 the mark is still 1536 (the unrepaired code ended with 512) -/
+example : ((runActs (Sender.init .reno ({ (TCPCubic.defaults : CCState ℚ) with mss := 512, cwnd := 1536, ssthresh := 65535 })
+      10 512 (some 1536) 0)
+    [.wake 8, .tick 1, .ack { fid := 10000, ackno := 1024, pid := 512, ptime := 0 },
+     .ack { fid := 10000, ackno := 1536, pid := 1024, ptime := 0 }, .tick 2,
+     .ack { fid := 10000, ackno := 512, pid := 0, ptime := 0 }]).map fun s => (s.last_ack, s.next_seq, s.dupack, s.timers.length))
+    = some (1536, 1536, 0, 0) := by decide +kernel
+
+/-- … and the state before that last ACK already had `last_ack = 1536 > 512` -/
+example : ((runActs (Sender.init .reno ({ (TCPCubic.defaults : CCState ℚ) with mss := 512, cwnd := 1536, ssthresh := 65535 })
+      10 512 (some 1536) 0)
+    [.wake 8, .tick 1, .ack { fid := 10000, ackno := 1024, pid := 512, ptime := 0 },
+     .ack { fid := 10000, ackno := 1536, pid := 1024, ptime := 0 }, .tick 2]).map fun s => (s.last_ack, decide (s.now = 2)))
+    = some (1536, true) := by decide +kernel
 
 /-! ### the closed loop (sender ∥ lossy FIFO data path ∥ sink ∥ lossy FIFO ACK path, `OnlVerif/Tcp/Loop.lean`) -/
 
